@@ -5,7 +5,7 @@
 set -u
 SD="$1"; ID="$2"; OUT="$3"
 WT=$(mktemp -d /tmp/wt_verify.XXXXXX); rmdir "$WT"
-git -C /repo worktree add --detach "$WT" HEAD >/dev/null 2>&1 || { echo '{"error":"worktree"}' > "$OUT"; exit 2; }
+git -C /repo worktree add --detach "$WT" ${SEED_BASE:-HEAD} >/dev/null 2>&1 || { echo '{"error":"worktree"}' > "$OUT"; exit 2; }
 cleanup() { git -C /repo worktree remove --force "$WT" >/dev/null 2>&1; rm -rf "$WT"; }
 trap cleanup EXIT
 cd "$WT"
